@@ -58,6 +58,48 @@ def parse_kani_output(out):
     return res
 
 
+def playback(dst, env, base_cmd, hname, h):
+    """Kani concrete playback: regenerate the counterexample as unit tests in place, run them natively."""
+    res = {"ran": False}
+    src_main = os.path.join(dst, "src", "main.rs")
+    backup = open(src_main).read()
+    try:
+        cmd = base_cmd + ["-Z", "concrete-playback", "--concrete-playback=inplace", "--harness", hname] + h.get("args", [])
+        try:
+            p = subprocess.run(cmd, cwd=dst, env=env, capture_output=True, text=True, timeout=h.get("playback_timeout", 2400))
+        except subprocess.TimeoutExpired:
+            subprocess.run("pkill -9 cbmc; pkill -9 kani-driver", shell=True)
+            res["summary"] = "concrete playback generation timed out"
+            return res
+        text = open(src_main).read()
+        tests = re.findall(r"fn (kani_concrete_playback_\w+)\(\)", text)
+        if not tests:
+            res["summary"] = "no playback test generated"
+            return res
+        res["tests_text"] = text[len(backup):] if text.startswith(backup[:200]) else ""
+        m = re.search(r"#\[test\]\s*fn kani_concrete_playback.*", text, re.S)
+        if m:
+            res["tests_text"] = m.group(0)
+        cmd2 = ["cargo", "kani", "playback", "-Z", "concrete-playback"] + [a for a in base_cmd[2:]]
+        try:
+            p2 = subprocess.run(cmd2, cwd=dst, env=env, capture_output=True, text=True, timeout=900)
+        except subprocess.TimeoutExpired:
+            res["summary"] = "native playback timed out"
+            return res
+        outp = p2.stdout + p2.stderr
+        mres = re.search(r"test result: (\w+)\. (\d+) passed; (\d+) failed", outp)
+        if not mres:
+            res["summary"] = "native playback produced no test result: " + outp[-300:]
+            return res
+        res["ran"] = True
+        res["panics"] = re.findall(r"panicked at [^\n]*\n([^\n]*)", outp)[:8]
+        res["reproduced"] = int(mres.group(3)) > 0
+        res["summary"] = mres.group(0)
+        return res
+    finally:
+        open(src_main, "w").write(backup)
+
+
 def run_kani_unit(name, workdir, tier, prop):
     src = os.path.join(VERIF, "kani", name)
     out = {"harnesses": [], "unit": name}
@@ -89,39 +131,62 @@ def run_kani_unit(name, workdir, tier, prop):
     env["CARGO_TARGET_DIR"] = os.path.join(dst, "target")
     base_cmd = ["cargo", "kani"] + cfg.get("kani_args", [])
     out["cmd"] = " ".join(base_cmd) + " --harness <h>  (crate /verif/kani/%s, function text extracted from /repo)" % name
+    selected = []
     for hname, h in cfg["harnesses"].items():
         if prop not in h.get("props", [prop]):
             continue
         if h.get("tier") == "thorough" and tier != "thorough":
             continue
+        selected.append((hname, h))
+
+    def run_one(item):
+        hname, h = item
+        hdst = dst + "_" + hname
+        shutil.copytree(dst, hdst)
+        henv = dict(env)
+        henv["CARGO_TARGET_DIR"] = os.path.join(hdst, "target")
+        und = None
         t0 = time.time()
         cmd = base_cmd + ["--harness", hname] + h.get("args", [])
         entry = dict(name=hname, bound=h.get("bound", ""), complete=h.get("complete", False))
         try:
-            p = subprocess.run(cmd, cwd=dst, env=env, capture_output=True, text=True, timeout=h.get("timeout", 900))
+            p = subprocess.run(cmd, cwd=hdst, env=henv, capture_output=True, text=True, timeout=h.get("timeout", 900))
             text = p.stdout + p.stderr
         except subprocess.TimeoutExpired:
             entry.update(status="TIMEOUT", wall_s=round(time.time() - t0, 1))
-            out["harnesses"].append(entry)
-            out["undecided"] = "kani harness %s timed out after %ss" % (hname, h.get("timeout", 900))
-            subprocess.run("pkill -9 cbmc; pkill -9 kani-driver", shell=True)
-            continue
+            shutil.rmtree(hdst, ignore_errors=True)
+            return entry, "kani harness %s timed out after %ss" % (hname, h.get("timeout", 900))
         r = parse_kani_output(text)
         entry.update(status=r["status"], failed=r["failed"], checks=r["checks"], wall_s=round(time.time() - t0, 1),
                      output_tail=text[-3000:])
         if r["status"] == "UNKNOWN":
-            # compile error in the stub environment = the function text no longer fits the stubs: undecided
             errs = re.findall(r"^error.*$", text, re.M)
-            out["undecided"] = "kani harness %s gave no verdict (%s)" % (hname, "; ".join(errs[:3]) or text[-300:].replace("\n", " "))
+            und = "kani harness %s gave no verdict (%s)" % (hname, "; ".join(errs[:3]) or text[-300:].replace("\n", " "))
         if r.get("unwinding_failed") and len(r["failed"]) and all("unwinding" in f["description"] for f in r["failed"]):
             entry["status"] = "UNKNOWN"
-            out["undecided"] = "kani harness %s: unwinding bound too small" % hname
+            und = "kani harness %s: unwinding bound too small" % hname
+        if entry["status"] == "FAILED" and not os.environ.get("VERIF_NO_PLAYBACK"):
+            pb = playback(hdst, henv, base_cmd, hname, h)
+            entry["playback"] = pb
+            if pb.get("ran") and pb.get("reproduced"):
+                entry["counterexample"] = dict(concrete_values=pb.get("tests_text", "")[:6000], native_panics=pb.get("panics", []))
+            elif pb.get("ran") and not pb.get("reproduced"):
+                entry["status"] = "UNKNOWN"
+                und = "kani harness %s: counterexample did not reproduce in the native replay (spurious): %s" % (hname, pb.get("summary", ""))
         if h.get("cover"):
             if r["covers"] is None or r["covers"][0] != r["covers"][1]:
-                entry["status"] = "UNKNOWN" if r["status"] != "FAILED" else entry["status"]
                 if r["status"] != "FAILED":
-                    out["undecided"] = "kani cover harness %s: not every cover property satisfied (%s): vacuous stub environment" % (hname, r["covers"])
+                    entry["status"] = "UNKNOWN"
+                    und = "kani cover harness %s: not every cover property satisfied (%s): vacuous stub environment" % (hname, r["covers"])
             entry["covers"] = r["covers"]
-        out["harnesses"].append(entry)
+        shutil.rmtree(hdst, ignore_errors=True)
+        return entry, und
+
+    import concurrent.futures as cf
+    with cf.ThreadPoolExecutor(max_workers=4) as ex:
+        for entry, und in ex.map(run_one, selected):
+            out["harnesses"].append(entry)
+            if und:
+                out["undecided"] = und
     shutil.rmtree(os.path.join(dst, "target"), ignore_errors=True)
     return out
